@@ -545,6 +545,10 @@ class DiHypergraph:
         else:
             raise XGIError("Directed edge must be a list or tuple!")
 
+        tail, head = list(tail), list(head)
+        if None in tail or None in head:
+            raise XGIError("None cannot be a node or edge")
+
         uid = next(self._edge_uid) if idx is None else idx
 
         if idx in self._edge.keys():  # check that uid is not present yet
@@ -687,9 +691,12 @@ class DiHypergraph:
                     raise XGIError("Directed edge must be a list or tuple!")
 
                 try:
-                    self._edge[idx] = {"in": set(tail), "out": set(head)}
+                    new_edge = {"in": set(tail), "out": set(head)}
                 except TypeError as e:
                     raise XGIError("Invalid ebunch format") from e
+                if None in new_edge["in"] or None in new_edge["out"]:
+                    raise XGIError("None cannot be a node or edge")
+                self._edge[idx] = new_edge
 
                 for n in tail:
                     if n not in self._node:
@@ -751,9 +758,12 @@ class DiHypergraph:
                 try:
                     tail = members[0]
                     head = members[1]
-                    self._edge[idx] = {"in": set(tail), "out": set(head)}
+                    new_edge = {"in": set(tail), "out": set(head)}
                 except TypeError as e:
                     raise XGIError("Invalid ebunch format") from e
+                if None in new_edge["in"] or None in new_edge["out"]:
+                    raise XGIError("None cannot be a node or edge")
+                self._edge[idx] = new_edge
 
                 for node in tail:
                     if node not in self._node:
